@@ -603,7 +603,7 @@ package xpath
 //@           x.precToken == xutils.LT || x.precToken == xutils.LE || x.precToken == xutils.GT || x.precToken == xutils.GE)
 
 // Next: the remaining input is peek (if set) followed by line; an invalid UTF-8 byte yields ERR.
-//@ define nextRune(x) = ite(x.peek != xutils.EOF, x.peek, ite(len(x.line) == 0, xutils.EOF, ite(x.line[0] < 128, x.line[0], -2)))
+//@ define nextRune(x) = ite(x.peek != xutils.EOF, x.peek, ite(len(x.line) == 0, xutils.EOF, ite(0 < x.line[0] && x.line[0] < 128, x.line[0], -2)))
 //@ func (*CommonLex).Next
 //@   requires x != nil
 //@   modifies x.peek
@@ -613,7 +613,8 @@ package xpath
 //@   ensures implies(old(x.peek) != xutils.EOF, result == old(x.peek) && x.line == old(x.line))
 //@   ensures implies(old(x.peek) == xutils.EOF && old(len(x.line)) == 0, result == xutils.EOF && x.line == old(x.line))
 //@   ensures implies(old(x.peek) == xutils.EOF && old(len(x.line)) > 0, len(x.line) < old(len(x.line)) && sameArray(x.line, old(x.line)))
-//@   ensures implies(old(x.peek) == xutils.EOF && old(len(x.line)) > 0 && old(x.line[0]) < 128, result == old(x.line[0]) && len(x.line) == old(len(x.line)) - 1)
+//@   ensures implies(old(x.peek) == xutils.EOF && old(len(x.line)) > 0 && 0 < old(x.line[0]) && old(x.line[0]) < 128, result == old(x.line[0]) && len(x.line) == old(len(x.line)) - 1)
+//@   ensures implies(old(x.peek) == xutils.EOF && old(len(x.line)) > 0, result != xutils.EOF)
 //@   ensures implies(old(x.peek) == xutils.EOF && old(len(x.line)) > 0 && old(x.line[0]) >= 128, result >= 128)
 
 // Two-character tokens: '//' '..' '::' '<=' '>=' '!='; the look-ahead character is put back when it does not belong to the token.
